@@ -4,7 +4,7 @@ import hashlib
 from hypothesis import strategies as st
 
 from vf import gen
-from vf.core import Fails, Target, attempt, bx, hx, raised
+from vf.core import Fails, Target, attempt, bx, hexof, hx, raised, seq
 from vf.env import smallcurve
 from vf.ref import der, ec
 
@@ -191,7 +191,7 @@ def check_bytes(case):
     if strict is not None:
         vals = strict
         libdec = attempt(U.der_decode_sig, bytes(dersig))
-        f.expect(not raised(libdec) and tuple(libdec) == strict, "der-decode/strict-der-decoded-differently", repr(libdec)[:120])
+        f.expect(not raised(libdec) and seq(libdec) == strict, "der-decode/strict-der-decoded-differently", repr(libdec)[:120])
     else:
         libdec = attempt(U.der_decode_sig, bytes(dersig))
         vals = tuple(libdec) if (not raised(libdec) and isinstance(libdec, tuple) and len(libdec) == 2 and all(isinstance(v, int) for v in libdec)) else None
@@ -239,10 +239,10 @@ def check_lows(case):
         f.add(f"low-s/raises-{out.kind}/{shape}", out)
         return cls, f
     if s <= N // 2:
-        f.expect(out == inp, "low-s/changes-already-low-signature", out.hex())
+        f.expect(out == inp, "low-s/changes-already-low-signature", hexof(out))
         return cls, f
     dec = der.decode_strict(out)
-    if f.expect(dec is not None, f"low-s/output-not-strict-der/{shape}", out.hex()):
+    if f.expect(dec is not None, f"low-s/output-not-strict-der/{shape}", hexof(out)):
         f.expect(dec == (r, min(s, N - s)), f"low-s/wrong-values/{shape}", repr(dec))
     if case.get("verify"):
         d, z = case["verify"]["d"], case["verify"]["z"]
